@@ -529,7 +529,7 @@ def main():
                SB._refine_hits_cubic, SB._order_and_dedup_hits, SB._detect_with_segment_refine, SB._compute_event_values, SB._is_vectorizable_plane_event)
     chk.bound(samples='N = 3 (quick), N = 4 (thorough): 2 resp. 3 bracketing intervals', state_dim=6, directions='{None, +1, -1}',
               normals='two concrete normals (axis, oblique) with symbolic offset (generic event path) and a concrete offset (vectorised path)',
-              cubic='N = 4, newton_max_iter <= %d, one refined crossing per call' % (2 if thorough else 1), segment_refine='0, and 1 with N = 3 on the linear dense path (2, and N = 4, in the thorough tier)')
+              cubic='N = 4, newton_max_iter <= %d, one refined crossing per call' % (2 if thorough else 1), segment_refine='0, and 1 with N = 3 on the linear dense path (also 2, and an oblique normal, in the thorough tier)')
     chk.assume('strictly increasing sample times', 'tol_on_surface > 0, dedup tolerances >= 0 (symbolic)',
                'counting obligation: candidates separated by more than the dedup tolerances (otherwise dropping is the documented behaviour)',
                'the on-surface acceptance rule (next >= 0 or previous <= 0 for direction +1) is taken from the code comments as the specification of "samples lying on the surface"')
@@ -549,7 +549,7 @@ def main():
     if thorough:
         for direction in (None, 1, -1):
             segment_refine_detection(chk, 3, 2, direction, 'x-axis', 2400)
-        segment_refine_detection(chk, 4, 1, -1, 'x-axis', 2400)
+        # (N = 4 on the dense path was tried: 174 nonlinear goals came back `unknown` after 1.9 h, so it is not claimed)
         segment_refine_detection(chk, 3, 1, 1, 'oblique', 2400)
     return chk.finish()
 
